@@ -26,7 +26,9 @@ from harness import common
 from harness.common import Failure, lean_run
 
 PROP_MODULES = ["ArmiVerif.Props.C16"]
-PARTIAL = ("values are equality codes: what pickle/deepcopy do to a leaf value is a parameter of the model (checked "
+PARTIAL = ("definition-level `assigned` flags and their back-up chain are modelled and tied by correspondence, the theorems "
+           "are about object slices (values, collection assigned, caches, grid, back-up chains); "
+           "values are equality codes: what pickle/deepcopy do to a leaf value is a parameter of the model (checked "
            "on the implementation: value canonical forms before/after); custom parameter setters and the API-level "
            "mutators (setNumberDensity, setTemperature, ...) are covered by the implementation-side oracle, the model "
            "has the default setter; material caches oracle-only; serial uniqueness is for create/deepcopy histories - "
@@ -99,6 +101,7 @@ class Session:
         self.log = []
         self.skipnames = set(SKIP_PARAMS)
         self.keepstack = []
+        self.desync = False
         self.emit("reset", "ok")
 
     def case(self):
@@ -405,7 +408,10 @@ def scope(ses, allobjs, depth, root=None, keep=None, script=None):
         raise
     except Exception as e:
         if phase[0] == "body":
+            if ses.desync:   # an enclosing scope's exit failing while an inner failure is already propagating
+                raise _Desync()
             raise
+        ses.desync = True
         ctx.fail(f"retain-scope-{phase[0]}-raises", "a retain-state scope can be opened and closed at any nesting depth",
                  ses.case() | {"object": ses.ids[id(root)], "type": type(root).__name__, "depth": depth, "keep": len(keep)},
                  observed=repr(e)[:200])
@@ -676,7 +682,10 @@ def api_stream(ctx, seq_seed):
             raise
         except Exception as e:
             if phase[0] == "body":
+                if ses.desync:
+                    raise _Desync()
                 raise
+            ses.desync = True
             ctx.fail(f"retain-scope-{phase[0]}-raises", "a retain-state scope can be opened and closed at any nesting depth",
                      {"seq_seed": seq_seed, "stream": "api", "object": ses.ids[id(root)], "type": type(root).__name__, "depth": depth},
                      observed=repr(e)[:200])
@@ -781,10 +790,10 @@ def excluded_points(ctx):
 def run(ctx):
     batch = {"req": [], "impl": [], "cases": [], "mask_serial": set(), "serial_sets": {}}
     fixture()
-    nses = ctx.pick(14, 300)
+    nses = ctx.pick(14, 150)
     for _ in range(nses):
         run_session(ctx, ctx.rng.randrange(1 << 40), batch, ctx.rng.randint(1, ctx.pick(5, 8)))
-    for _ in range(ctx.pick(15, 300)):
+    for _ in range(ctx.pick(15, 200)):
         api_stream(ctx, ctx.rng.randrange(1 << 40))
     # last: the raising scope exit leaves the (process-global) definition back-up chains unbalanced
     excluded_points(ctx)
